@@ -20,7 +20,7 @@ CONSTANTS
   IntLits <- IntLits_one
   CharLits <- CharLits_one
   StrLits <- StrLits_one
-  ArrayLens <- ArrayLens_two
+  ArrayLens <- ArrayLens_one
   AddOps = {"+"}
   MulOps = {"*"}
   BitOps = {"&"}
